@@ -34,7 +34,15 @@ LEVEL_TEXT = ("Proof, for every cell text, category table, chunking and validati
               "(importer_append_homomorphism), the CSV driver feeds each importer exactly consecutive blocks of its column "
               "(staging_column_encodes ties C05's per-call guarantee to this property's Encodes), hence for any schema, "
               "chunk_row_size and regrowth the public entry point stores typedSpec(kind, whole column) in every main and "
-              "companion field (read_csv_typed_eq_spec, typed_companions_aligned).")
+              "companion field (read_csv_typed_eq_spec, typed_companions_aligned). The raising half of the property at the "
+              "public entry point (read_csv_typed_raises): whenever some selected cell is rejected by its importer's validation "
+              "mode (empty / unparseable numeric text in strict, unparseable in allow_empty, integer outside the dtype in every "
+              "mode, impossible date), read_csv_with_schema_dict raises, for every chunk_row_size of C05's regime, every window "
+              "boundary and every regrowth (typed_raise_chunk_size_unobservable: two chunk sizes both succeed with equal "
+              "output or both raise); the error is what the importer raises (rejErr) on the first rejected cell - index_map "
+              "order, then row order - of the first kernel block that holds one, and its class is Exception for bool, "
+              "OverflowError for an out-of-dtype integer, ValueError for empty / unparseable numeric text and for dates "
+              "(typed_reject_error_class).")
 LEVEL_NOTE = ("Parameters, not theorems: the text-to-number parsers (Python int()/float(), numpy astype; validation_mode_table holds "
               "for every parser that rejects blank text) and datetime/timezone (CPython's _ymd2ord is mirrored and proved equal to "
               "plain day counting; int() on bytes is modelled executably and compared exhaustively on short texts). The timestamp "
@@ -45,9 +53,16 @@ LEVEL_NOTE = ("Parameters, not theorems: the text-to-number parsers (Python int(
               "free text, is stored as 0) is recorded as found: categorical_exact_match states the stored 0 outright, the "
               "property-level statement is categorical_property_partial (every cell is a key), witness in Witness/C06.lean. "
               "The composed theorem read_csv_typed_eq_spec requires every selected cell to be acceptable to its importer; for "
-              "rejected cells (strict / allow_empty, impossible dates) read_csv_typed_raises_partial proves that import_part raises "
-              "on any block that holds one; the lift through the driver loop is not proved (error classes are compared by the "
-              "csv_typed correspondence).")
+              "rejected cells (strict / allow_empty, out of range, impossible dates) read_csv_typed_raises lifts the "
+              "importer-level statement (read_csv_typed_raises_partial, kept) through the driver loop: the invariant DI is "
+              "extended by 'no rejected cell among the records consumed so far' (DIC), one iteration is split at the importers "
+              "into an ok- and an error-continuation (driver_step_split). WHETHER the import raises is independent of the "
+              "chunking; WHICH rejected cell is reported is not (the kernel blocks d..d+a-1 depend on chunk_row_size): "
+              "Props/C0506.lean has a file that raises ValueError with chunk_row_size 2 and OverflowError with 40. The "
+              "csv_typed correspondence checks the real import against exactly this statement: error class of model and "
+              "code, and the reported column / cell text against the first rejected cell of the first block of the model's "
+              "block trace, on a stratified family (every importer kind x validation mode x class of cell x every row "
+              "position: first row of the file, last row of a kernel block, first row after a regrowth).")
 RULE = ("corpus (witnesses of D28, D29, NC06a-f) first; exhaustive: every byte string up to length 3 (quick) / 4 (thorough) over the "
         "bool literal alphabet {t,r,u,e,f,a,l,s,y,n,o,0,1,blank,x} plus all case variants of the accepted spellings, in the three "
         "modes; every subset (size <= 3) of the key pool {'', a, ab, b, ba, abc} against all pool members, strict prefixes/suffixes "
@@ -58,7 +73,12 @@ RULE = ("corpus (witnesses of D28, D29, NC06a-f) first; exhaustive: every byte s
         "cases through the JSON schema loader; csv_typed (shared with checks/harness/c05.py): 160 (quick) / 4000 (thorough) "
         "mixed typed schemas through the real read_csv_with_schema_dict / read_csv with the smallest supported chunk_row_size "
         "values (typed columns cross many kernel calls and value-buffer regrowths; categorical cells that are no category "
-        "included), compared with the composed model (CSV driver + importer models) and this oracle. Non-trivial = at least two chunks or an unmatched/invalid/truncated cell; distinct "
+        "included), compared with the composed model (CSV driver + importer models) and this oracle; rejected cells, "
+        "stratified and seed independent (c05.typed_reject_cases): a typed column beside a one-byte fixed-string column whose "
+        "long cell in row 3 forces a value-buffer regrowth, the cell of class {empty, unparseable, out of dtype range, "
+        "impossible date} in every row 0..5 in turn x {bool, int8, uint16, float64} x {strict, allow_empty, relaxed} and "
+        "datetime / date x chunk_row_size {smallest, +1, (+3), one window}, plus two-column files with two rejected cells "
+        "of different exception classes in both column orders; measured strata in the distribution (reject-stratum:*). Non-trivial = at least two chunks or an unmatched/invalid/truncated cell; distinct "
         "= distinct case dict.")
 ASSUMPTIONS = ["Python int()/float(), numpy astype(str->number) and datetime/timezone arithmetic are parameters of the theorems "
                "(compared on generated texts, int() and _ymd2ord also modelled)",
@@ -571,6 +591,7 @@ def gen_cases(tier, rng):
     # that are no category (NC06d)
     from checks.harness import c05
     cases.extend(c05.typed_regrowth_cases())
+    cases.extend(c05.typed_reject_cases(tier == "quick"))
     cases.extend(c05.typed_cases(rng, 160 if tier == "quick" else 4000, allow_unmatched=True))
     return cases
 
